@@ -5,6 +5,7 @@ CONSTANTS Callers = {c1, c2}
  MaxAtt = 2
  FreshKey = FALSE
  MaxJunk = 2
+ MaxClose = 0
  Kinds = {"obj"}
  Dev = {"AbortContainerOnItemError"}
 INVARIANTS WireIdsIncrease SeqNoRules OwnResult AcceptedNeverResent SaltPersisted NoStallNotify NoStallDeliver
